@@ -1,6 +1,7 @@
 package ech
 
 import (
+	"bytes"
 	"context"
 	"fmt"
 	"io"
@@ -128,6 +129,7 @@ type Conn struct {
 	readBuf          []byte
 	readErr          error
 	writeBuf         []byte
+	writeHS          []byte // start of the backend's first handshake message
 	retryCount       *atomic.Int32
 	readPassthrough  bool
 	writePassthrough bool
@@ -444,19 +446,25 @@ func (c *Conn) inspectWrite(record []byte) error {
 	} else {
 		c.debugf("Write %s(%d)\n", contentType(recType), recType)
 	}
-	switch {
-	case recType == 23:
+	switch recType {
+	case 23:
 		c.writePassthrough = true
-	case recType == 22 && msgType == 2: // Handshake / ServerHello
-		h, err := parseServerHello(record[5:])
-		if err != nil {
-			return fmt.Errorf("%w: parseServerHello: %v\n", ErrDecodeError, err)
+	case 22:
+		// The backend's first handshake message is a ServerHello or a
+		// HelloRetryRequest. It may span several records, and a ServerHello
+		// of an older TLS version may have no extensions. What tells the two
+		// apart is at the start of the message: msg_type(1) length(3)
+		// legacy_version(2) random(32).
+		c.writeHS = append(c.writeHS, record[5:]...)
+		if len(c.writeHS) < 38 {
+			break
 		}
-		if h.IsHelloRetryRequest() {
-			c.debugf("HelloRetryRequest: %s\n", h)
-			c.writePassthrough = true
+		if c.writeHS[0] == 2 && bytes.Equal(c.writeHS[6:38], helloRetryRequest) {
+			c.debugf("HelloRetryRequest\n")
 			c.retryCount.Add(1)
 		}
+		c.writeHS = nil
+		c.writePassthrough = true
 	}
 	return nil
 }
